@@ -118,6 +118,13 @@ func (s *Sim) Heal() {
 	s.Net.Blocked = map[[2]uint64]bool{}
 }
 
+// ReleaseAll releases every held flight.
+func (s *Sim) ReleaseAll() {
+	for _, f := range s.Net.Pool {
+		f.Held = false
+	}
+}
+
 // ReportSnap discharges a ReportSnapshot obligation.
 func (s *Sim) ReportSnap(k int, failure bool) {
 	o := s.Net.Owed[k]
